@@ -274,6 +274,41 @@ theorem s3_uploads_unique_with_faults (pfx : List Char) (ups : List (Option Byte
   rw [e ups]
   exact s3_keys_unique pfx _ h
 
+/-! ### Short reads of the entropy source -/
+
+/-- **readFull_chunking_irrelevant**: however the source cuts its output into reads (one byte at a
+time, empty reads in between, …), as long as it delivers `n` bytes in total the buffer receives
+exactly the first `n` bytes of the stream — never a partly filled (zero-padded) buffer. -/
+theorem readFull_chunking_irrelevant : ∀ (chunks : List Bytes) (n : Nat), n ≤ chunks.flatten.length →
+    readFull chunks n = some (chunks.flatten.take n)
+  | [], n, h => by
+    simp at h
+    simp [readFull, h]
+  | c :: rest, n, h => by
+    simp only [readFull]
+    by_cases hn : n ≤ c.length
+    · simp only [hn, if_true, List.flatten_cons]
+      rw [List.take_append_of_le_length hn]
+    · simp only [hn, if_false, List.flatten_cons]
+      have h' : n - c.length ≤ rest.flatten.length := by
+        rw [List.flatten_cons, List.length_append] at h; omega
+      rw [readFull_chunking_irrelevant rest (n - c.length) h', List.take_append]
+      have : c.take n = c := List.take_of_length_le (by omega)
+      simp [this]
+
+/-- **key_independent_of_chunking**: two sources that deliver the same byte stream in different
+read sizes give the same key; in particular a one-byte-per-read source gives the key of its first
+16 bytes, with all 122 free bits taken from the source. -/
+theorem key_independent_of_chunking (c1 c2 : List Bytes) (h : c1.flatten = c2.flatten)
+    (hl : 16 ≤ c1.flatten.length) : generateUUIDFrom c1 = generateUUIDFrom c2 ∧
+    generateUUIDFrom c1 = some (generateUUID (c1.flatten.take 16)) := by
+  unfold generateUUIDFrom
+  rw [readFull_chunking_irrelevant c1 16 hl, readFull_chunking_irrelevant c2 16 (h ▸ hl), h]
+  simp
+
+example : generateUUIDFrom (drawA'.map fun b => [b]) = some (generateUUID drawA') := by decide
+example : generateUUIDFrom [[1, 2, 3], [], [4]] = none := by decide
+
 /-! ### Where the draws come from (facts regenerated from the source on every run) -/
 
 /-- **keys_draw_from_os_entropy**: in the CURRENT source the S3 generator `generateUUID` references
